@@ -2,7 +2,7 @@
    uses meet the device conditions of the inlining theorem. *)
 From Coq Require Import Permutation.
 From TV Require Import Base Model.Wiring Model.Ticker Model.Component Model.Sim Model.SimTime Model.Inline
-  Oracle.SimCheck Proofs.WiringP Proofs.TickerP Proofs.SimP Proofs.EqvP Proofs.ParDevP Proofs.InlineP Proofs.InlineLoopP.
+  Oracle.SimCheck Proofs.WiringP Proofs.TickerP Proofs.SimP Proofs.EqvP Proofs.ParDevP Proofs.FuelP Proofs.InlineP Proofs.InlineLoopP.
 Open Scope Z_scope.
 
 Lemma all_dev_map l : forallb is_dev l = true -> l = map dv (map fst l).
@@ -48,6 +48,33 @@ Proof.
   apply (lookup_In_iff _ x KDev Hk) in Hi. rewrite Hi. reflexivity.
 Qed.
 
+(* the order of the level of c, with the kinds read off the configuration *)
+Lemma order_as_dki_gen cfg lvc (l : list (comp * ckind)) :
+  (forall x k, In (x, k) l -> kd_in cfg lvc x = k) -> l = map (dki cfg lvc) (map fst l).
+Proof.
+  induction l as [|[x k] r IH]; intros H; [reflexivity|]. cbn [map fst]. unfold dki at 1. rewrite (H x k (or_introl eq_refl)).
+  f_equal. apply IH. intros y ky Hy. apply H. right. exact Hy.
+Qed.
+
+Lemma order_as_dki cfg lvc : NoDup (keys (l_order (level_of cfg lvc))) ->
+  l_order (level_of cfg lvc) = map (dki cfg lvc) (map fst (l_order (level_of cfg lvc))).
+Proof.
+  intros Hnd. apply order_as_dki_gen. intros x k Hi. unfold kd_in. apply (lookup_In_iff _ x k Hnd) in Hi. rewrite Hi. reflexivity.
+Qed.
+
+Lemma inner_nodup {A} (a b c : A) pre inn post : NoDup (a :: b :: c :: pre ++ inn ++ post) -> NoDup inn.
+Proof.
+  intros H. inversion H as [|? ? _ H1]; subst. inversion H1 as [|? ? _ H2]; subst. inversion H2 as [|? ? _ H3]; subst.
+  apply NoDup_app_r in H3. apply NoDup_app_l in H3. exact H3.
+Qed.
+
+Lemma inner_kinds_dev cfg lvc : forallb is_dev (l_order (level_of cfg lvc)) = true ->
+  forall x, In x (map fst (l_order (level_of cfg lvc))) -> kd_in cfg lvc x = KDev.
+Proof.
+  intros Hd x _. unfold kd_in. destruct (lookup x (l_order (level_of cfg lvc))) as [k|] eqn:E; [|reflexivity].
+  apply lookup_In in E. pose proof (proj1 (forallb_forall _ _) Hd _ E) as Hk. destruct k; [reflexivity | discriminate].
+Qed.
+
 Theorem shape_of_sound cfg c lvc pre inn post :
   shape_of cfg = Some (c, lvc, pre, inn, post) -> shape cfg c lvc pre inn post.
 Proof.
@@ -62,7 +89,7 @@ Proof.
   { intros l Hl. apply map_ext_in. intros x Hx. unfold dk, dv. rewrite (Hkd x (Hl x Hx)). reflexivity. }
   constructor.
   - rewrite (Hdk pre), (Hdk post); [exact Etop | intros x Hx; apply in_app_iff; right; exact Hx | intros x Hx; apply in_app_iff; left; exact Hx].
-  - apply all_dev_map. exact Eb.
+  - apply order_as_dki. exact (inner_nodup _ _ _ _ _ _ Hnd).
   - exact Hnd.
   - intros E. rewrite E, Pos.eqb_refl in K3. discriminate.
   - apply single_sourceb_sound. exact K2.
@@ -78,10 +105,13 @@ Qed.
 Lemma shape_of_devices cfg c lvc pre inn post :
   shape_of cfg = Some (c, lvc, pre, inn, post) -> forall g, sib_ok cfg g c lvc pre inn post.
 Proof.
-  intros Hs g. apply sib_ok_devices. pose proof (shape_of_sound _ _ _ _ _ _ Hs) as Hsh.
+  intros Hs g. pose proof (shape_of_sound _ _ _ _ _ _ Hs) as Hsh.
   unfold shape_of in Hs. destruct (split_sys (l_order (level_of cfg top))) as [[[[pre' c'] lv'] post']|] eqn:Es; [|discriminate].
-  match type of Hs with (if ?b then _ else _) = _ => destruct b; [|discriminate] end. inversion Hs; subst. clear Hs.
-  apply (top_kinds_dev cfg pre c lvc post _ (split_sys_sound _ _ _ _ _ Es) (sh_nodup _ _ _ _ _ _ Hsh)).
+  match type of Hs with (if ?b then _ else _) = _ => destruct b eqn:Eb; [|discriminate] end. inversion Hs; subst. clear Hs.
+  repeat (apply andb_true_iff in Eb; let H := fresh "K" in destruct Eb as [Eb H]).
+  apply sib_ok_devices.
+  - apply (top_kinds_dev cfg pre c lvc post _ (split_sys_sound _ _ _ _ _ Es) (sh_nodup _ _ _ _ _ _ Hsh)).
+  - apply inner_kinds_dev. exact Eb.
 Qed.
 
 (* ---------- the harness's devices *)
@@ -156,13 +186,28 @@ Fixpoint split_at (c : comp) (l : list (comp * ckind)) : option (list comp * cki
       else match split_at c r with Some (pre, k', post) => Some (x :: pre, k', post) | None => None end
   end.
 
+Fixpoint deep_enoughb (cfg : config) (f : nat) (lv : positive) : bool :=
+  match f with
+  | O => false
+  | S f' => forallb (fun ck : comp * ckind => match snd ck with KDev => true | KSys lv' => deep_enoughb cfg f' lv' end) (l_order (level_of cfg lv))
+  end.
+
+(* the subtree of another system simulation lies apart from the top level, from the level of c and from
+   the components named in the shape; every level of it is single-source *)
+Definition sub_okb (cfg : config) (g : nat) (c : comp) (lvc : positive) (named : list comp) (ly : positive) : bool :=
+  negb (memb top (levels_below cfg g ly)) && negb (memb lvc (levels_below cfg g ly))
+  && forallb (fun z : comp => negb (memb z named) && negb (Pos.eqb z c)) (devices_below cfg g ly)
+  && forallb (fun l : positive => single_sourceb (l_conns (level_of cfg l))) (levels_below cfg g ly).
+
 Definition shape_at (cfg : config) (g : nat) (c : comp) : option (positive * list comp * list comp * list comp) :=
+  match g with
+  | O => None
+  | S f =>
   match split_at c (l_order (level_of cfg top)) with
   | Some (pre, KSys lvc, post) =>
       let inner := l_order (level_of cfg lvc) in
       let inn := map fst inner in
-      if forallb is_dev inner
-         && nodupb (c :: ext_id :: exp_id :: pre ++ inn ++ post)
+      if nodupb (c :: ext_id :: exp_id :: pre ++ inn ++ post)
          && negb (Pos.eqb lvc top)
          && single_sourceb (l_conns (level_of cfg top)) && single_sourceb (l_conns (level_of cfg lvc))
          && forallb (fun k : conn => let '(u, _, y, _) := k in
@@ -174,14 +219,38 @@ Definition shape_at (cfg : config) (g : nat) (c : comp) : option (positive * lis
          && forallb (fun y : comp =>
                        match kd_of cfg y with
                        | KDev => true
-                       | KSys ly =>
-                           negb (memb top (levels_below cfg g ly)) && negb (memb lvc (levels_below cfg g ly))
-                           && forallb (fun z : comp => negb (memb z (pre ++ inn ++ post)) && negb (Pos.eqb z c)) (devices_below cfg g ly)
-                           && forallb (fun l : positive => single_sourceb (l_conns (level_of cfg l))) (levels_below cfg g ly)
+                       | KSys ly => sub_okb cfg (S f) c lvc (pre ++ inn ++ post) ly
                        end) (pre ++ post)
+         && forallb (fun y : comp =>
+                       match kd_in cfg lvc y with
+                       | KDev => true
+                       | KSys ly => sub_okb cfg f c lvc (pre ++ inn ++ post) ly && deep_enoughb cfg f ly
+                       end) inn
       then Some (lvc, pre, inn, post) else None
   | _ => None
+  end
   end.
+
+Lemma deep_enoughb_sound cfg : forall f lv, deep_enoughb cfg f lv = true -> deep_enough cfg f lv.
+Proof.
+  induction f as [|f IH]; intros lv H; [discriminate|]. cbn [deep_enoughb] in H. cbn [deep_enough]. intros x lv' Hi.
+  pose proof (proj1 (forallb_forall _ _) H _ Hi) as Hk. cbn [snd] in Hk. apply IH. exact Hk.
+Qed.
+
+Lemma sub_okb_sound cfg g c lvc named ly : sub_okb cfg g c lvc named ly = true ->
+  ~ In top (levels_below cfg g ly) /\ ~ In lvc (levels_below cfg g ly) /\
+  (forall z, In z (devices_below cfg g ly) -> ~ In z named /\ z <> c) /\
+  (forall l, In l (levels_below cfg g ly) -> single_source (l_conns (level_of cfg l))).
+Proof.
+  unfold sub_okb. intros Hc.
+  repeat (apply andb_true_iff in Hc; let H := fresh "Q" in destruct Hc as [Hc H]).
+  split; [apply memb_false; destruct (memb top (levels_below cfg g ly)); [discriminate | reflexivity]|].
+  split; [apply memb_false; destruct (memb lvc (levels_below cfg g ly)); [discriminate | reflexivity]|].
+  split.
+  - intros z Hz. pose proof (proj1 (forallb_forall _ _) Q0 _ Hz) as Hq. cbv beta in Hq. apply andb_true_iff in Hq. destruct Hq as [H1 H2].
+    split; [apply memb_false; destruct (memb z _); [discriminate | reflexivity] | intros E; subst z; rewrite Pos.eqb_refl in H2; discriminate].
+  - intros l Hl. apply single_sourceb_sound. apply (proj1 (forallb_forall _ _) Q _ Hl).
+Qed.
 
 Lemma split_at_sound c : forall l pre k post, split_at c l = Some (pre, k, post) ->
   exists prel postl, l = prel ++ (c, k) :: postl /\ pre = map fst prel /\ post = map fst postl.
@@ -200,15 +269,15 @@ Proof.
   f_equal. apply IH. intros y ky Hy. apply H. right. exact Hy.
 Qed.
 
-Theorem shape_at_sound cfg g c lvc pre inn post :
-  shape_at cfg g c = Some (lvc, pre, inn, post) -> shape cfg c lvc pre inn post /\ sib_ok cfg g c lvc pre inn post.
+Theorem shape_at_sound cfg f c lvc pre inn post :
+  shape_at cfg (S f) c = Some (lvc, pre, inn, post) -> shape cfg c lvc pre inn post /\ sib_ok cfg f c lvc pre inn post.
 Proof.
   unfold shape_at. destruct (split_at c (l_order (level_of cfg top))) as [[[pre' k] post']|] eqn:Es; [|discriminate].
   destruct k as [|lvc']; [discriminate|].
   match goal with |- (if ?b then _ else _) = _ -> _ => destruct b eqn:Eb; [|discriminate] end.
   intros H. inversion H; subst. clear H.
-  repeat (apply andb_true_iff in Eb; let H := fresh "K" in destruct Eb as [Eb H]).
-  assert (Hnd : NoDup (c :: ext_id :: exp_id :: pre ++ map fst (l_order (level_of cfg lvc)) ++ post)) by (apply nodupb_NoDup; exact K5).
+  do 7 (apply andb_true_iff in Eb; let H := fresh "K" in destruct Eb as [Eb H]).
+  assert (Hnd : NoDup (c :: ext_id :: exp_id :: pre ++ map fst (l_order (level_of cfg lvc)) ++ post)) by (apply nodupb_NoDup; exact Eb).
   destruct (split_at_sound c _ _ _ _ Es) as [prel [postl [Etop [Epre Epost]]]]. subst pre post.
   assert (Hkeys : NoDup (keys (l_order (level_of cfg top)))).
   { rewrite Etop. unfold keys. rewrite map_app. cbn [map fst].
@@ -226,23 +295,25 @@ Proof.
     + rewrite Etop at 1.
       rewrite <- (order_as_dk cfg prel), <- (order_as_dk cfg postl); [reflexivity | |];
         intros x k Hi; apply Hkd; rewrite Etop; apply in_app_iff; [right; right; exact Hi | left; exact Hi].
-    + apply all_dev_map. exact Eb.
+    + apply order_as_dki. exact (inner_nodup _ _ _ _ _ _ Hnd).
     + exact Hnd.
-    + intros E. rewrite E, Pos.eqb_refl in K4. discriminate.
+    + intros E. rewrite E, Pos.eqb_refl in K5. discriminate.
+    + apply single_sourceb_sound. exact K4.
     + apply single_sourceb_sound. exact K3.
-    + apply single_sourceb_sound. exact K2.
-    + intros u p y q Hin. pose proof (proj1 (forallb_forall _ _) K1 _ Hin) as Hk. cbv beta iota in Hk.
+    + intros u p y q Hin. pose proof (proj1 (forallb_forall _ _) K2 _ Hin) as Hk. cbv beta iota in Hk.
       apply andb_true_iff in Hk. destruct Hk as [Hk Hn]. apply andb_true_iff in Hk. destruct Hk as [Hu Hy].
       split; [apply memb_In; exact Hu|]. split; [apply memb_In; exact Hy|]. intros [E1 E2]. subst. rewrite !Pos.eqb_refl in Hn. discriminate.
-    + intros u p e q Hin. pose proof (proj1 (forallb_forall _ _) K0 _ Hin) as Hk. cbv beta iota in Hk.
+    + intros u p e q Hin. pose proof (proj1 (forallb_forall _ _) K1 _ Hin) as Hk. cbv beta iota in Hk.
       apply andb_true_iff in Hk. destruct Hk as [Hk Hn]. apply andb_true_iff in Hk. destruct Hk as [Hu Hy].
       split; [apply memb_In; exact Hu|]. split; [apply memb_In; exact Hy|]. intros [E1 E2]. subst. rewrite !Pos.eqb_refl in Hn. discriminate.
-  - intros y ly Hy Hk. pose proof (proj1 (forallb_forall _ _) K _ Hy) as Hc. cbv beta in Hc. rewrite Hk in Hc.
-    repeat (apply andb_true_iff in Hc; let H := fresh "Q" in destruct Hc as [Hc H]).
-    split; [apply memb_false; destruct (memb top (levels_below cfg g ly)); [discriminate | reflexivity]|].
-    split; [apply memb_false; destruct (memb lvc (levels_below cfg g ly)); [discriminate | reflexivity]|].
-    split.
-    + intros z Hz. pose proof (proj1 (forallb_forall _ _) Q0 _ Hz) as Hq. cbv beta in Hq. apply andb_true_iff in Hq. destruct Hq as [H1 H2].
-      split; [apply memb_false; destruct (memb z _); [discriminate | reflexivity] | intros E; subst z; rewrite Pos.eqb_refl in H2; discriminate].
-    + intros l Hl. apply single_sourceb_sound. apply (proj1 (forallb_forall _ _) Q _ Hl).
+  - intros y ly g [[Hy [Hk Eg]]|[Hy [Hk Eg]]]; subst g.
+    + pose proof (proj1 (forallb_forall _ _) K0 _ Hy) as Hc. cbv beta in Hc. rewrite Hk in Hc.
+      destruct (sub_okb_sound _ _ _ _ _ _ Hc) as [A [B [C D]]].
+      split; [exact A|]. split; [exact B|]. split; [exact C|]. split; [exact D|].
+      intros E. exfalso. clear -E. induction f as [|f IH]; [discriminate | apply IH; injection E as E; exact E].
+    + pose proof (proj1 (forallb_forall _ _) K _ Hy) as Hc. cbv beta in Hc. rewrite Hk in Hc.
+      apply andb_true_iff in Hc. destruct Hc as [Hc Hdeep].
+      destruct (sub_okb_sound _ _ _ _ _ _ Hc) as [A [B [C D]]].
+      split; [exact A|]. split; [exact B|]. split; [exact C|]. split; [exact D|].
+      intros _. apply deep_enoughb_sound. exact Hdeep.
 Qed.
